@@ -20,6 +20,7 @@ import (
 	"path/filepath"
 	"sync"
 
+	"github.com/nspcc-dev/hrw/v2"
 	ierrors "github.com/nspcc-dev/neofs-node/internal/errors"
 	"github.com/nspcc-dev/neofs-node/pkg/local_object_storage/blobstor/common"
 	"github.com/nspcc-dev/neofs-node/pkg/local_object_storage/engine"
@@ -343,4 +344,28 @@ func ModeName(m mode.Mode) string {
 		return "degro"
 	}
 	return m.String()
+}
+
+type hrwShard struct {
+	k int
+	h uint64
+}
+
+func (s hrwShard) Hash() uint64 { return s.h }
+
+type hrwObj oid.ID
+
+func (o hrwObj) Hash() uint64 { return binary.BigEndian.Uint64(o[:8]) }
+
+func hrwOrder(shs []*Sh, id oid.ID) []int {
+	v := make([]hrwShard, len(shs))
+	for i, s := range shs {
+		v[i] = hrwShard{k: i, h: s.ID.Hash()}
+	}
+	hrw.Sort(v, hrwObj(id))
+	r := make([]int, len(v))
+	for i := range v {
+		r[i] = v[i].k
+	}
+	return r
 }
